@@ -117,7 +117,16 @@ func runEmit(f []string) string {
 	dir, _ := os.MkdirTemp("", "emt")
 	defer os.RemoveAll(dir)
 	real := materialise(dir, unhx(f[2]), parseFiles(f[3]))
-	return "bash=" + transpileTo(real, "bash") + " batch=" + transpileTo(real, "batch")
+	b := transpileTo(real, "bash")
+	w := transpileTo(real, "batch")
+	bs, ws := "-", "-"
+	if strings.HasPrefix(b, "ok:") {
+		bs = bashSyntax(unhx(b[3:]))
+	}
+	if strings.HasPrefix(w, "ok:") {
+		ws = batchSyntax(unhx(w[3:]))
+	}
+	return "bash=" + b + " batch=" + w + " bashsyntax=" + bs + " batchsyntax=" + ws
 }
 
 // progCase renders a case line body from a main source and extra files (paths relative to /V);
